@@ -328,4 +328,409 @@ theorem mem_of_alookup {α : Type} {k : String} {v : α} {l : List (String × α
       obtain ⟨k', hk⟩ := ih h
       exact ⟨k', by simp [hk]⟩
 
+/-! ## constraints of the original table stay in `named_constraints` until an operation names them -/
+
+/-- the operation names the constraint `n`: `drop_constraint(n)` or `add_constraint` of a constraint called `n` -/
+def mentionsConst (n : String) : BatchOp → Bool
+  | .dropConstraint m => m == n
+  | .addConstraint c => c.name == some n
+  | _ => false
+
+theorem alookup_map_snd {α : Type} (f : α → α) (k : String) (l : List (String × α)) :
+    alookup k (l.map (fun p => (p.1, f p.2))) = (alookup k l).map f := by
+  induction l with
+  | nil => simp [alookup]
+  | cons p r ih =>
+    obtain ⟨a, w⟩ := p
+    by_cases h : a = k
+    · simp [alookup, h]
+    · simp [alookup, h, ih]
+
+theorem ahas_of_alookup {α : Type} {k : String} {v : α} {l : List (String × α)} (h : alookup k l = some v) :
+    ahas k l = true := by
+  induction l with
+  | nil => simp [alookup] at h
+  | cons p r ih =>
+    obtain ⟨a, w⟩ := p
+    by_cases ha : a = k
+    · simp [ahas, akeys, ha]
+    · simp [alookup, ha] at h
+      have := ih h
+      simp [ahas, akeys] at this ⊢
+      exact .inr this
+
+theorem dropFromTablePk_id {m : String} {c : Const} (h : m ∉ c.cols) : dropFromTablePk m c = c := by
+  unfold dropFromTablePk
+  split
+  · have : c.cols.filter (· != m) = c.cols := by
+      rw [List.filter_eq_self]
+      intro a ha
+      simp only [bne_iff_ne, ne_eq]
+      intro e; subst e; exact h ha
+    rw [this]
+  · rfl
+
+theorem named_kept_applyOp {n : String} {c : Const} {st st' : State} {o : BatchOp}
+    (h : alookup n st.named = some c) (hcols : ∀ k ∈ c.cols, touches k o = false)
+    (hm : mentionsConst n o = false) (hok : st.applyOp o = .ok st') : alookup n st'.named = some c := by
+  cases o with
+  | addColumn c' b a cd =>
+    simp only [State.applyOp, State.addColumn] at hok
+    split at hok
+    · cases hok
+    · cases hok; exact h
+  | dropColumn m =>
+    simp only [State.applyOp, State.dropColumn] at hok
+    split at hok
+    · cases hok
+    · split at hok
+      · cases hok
+      · cases hok
+        simp only
+        rw [alookup_map_snd, h]
+        have hm' : m ∉ c.cols := by
+          intro hin
+          have := hcols m hin
+          simp [touches] at this
+        simp [dropFromTablePk_id hm']
+  | alterColumn m nn nt nl d =>
+    simp only [State.applyOp, State.alterColumn] at hok
+    split at hok
+    · split at hok
+      · cases hok
+      · cases hok; exact h
+    · cases hok
+  | addConstraint c' =>
+    simp only [State.applyOp, State.addConstraint] at hok
+    split at hok
+    · rename_i n' hn'
+      cases hok
+      have hne : n ≠ n' := by
+        intro e; subst e
+        simp [mentionsConst, hn'] at hm
+      simp only
+      rw [alookup_aset_ne _ _ hne]; exact h
+    · cases hok
+  | dropConstraint m =>
+    have hne : n ≠ m := by
+      intro e; subst e; simp [mentionsConst] at hm
+    simp only [State.applyOp, State.dropConstraint] at hok
+    split at hok
+    · cases hok
+    · split at hok <;> (cases hok; simp only; rw [alookup_adel_ne _ hne]; exact h)
+  | createIndex i =>
+    simp only [State.applyOp, State.createIndex] at hok
+    cases hok; exact h
+  | dropIndex m =>
+    simp only [State.applyOp, State.dropIndex] at hok
+    split at hok
+    · cases hok; exact h
+    · cases hok
+
+theorem named_kept_applyOps {n : String} {c : Const} (ops : List BatchOp) : ∀ (st st' : State),
+    alookup n st.named = some c → (∀ o ∈ ops, ∀ k ∈ c.cols, touches k o = false) →
+    (∀ o ∈ ops, mentionsConst n o = false) → st.applyOps ops = .ok st' → alookup n st'.named = some c := by
+  induction ops with
+  | nil => intro st st' h _ _ hok; simp [State.applyOps] at hok; cases hok; exact h
+  | cons o r ih =>
+    intro st st' h hc hm hok
+    simp only [State.applyOps] at hok
+    split at hok
+    · cases hok
+    · rename_i st1 h1
+      exact ih st1 st' (named_kept_applyOp h (hc o (by simp)) (hm o (by simp)) h1)
+        (fun o' ho' => hc o' (by simp [ho'])) (fun o' ho' => hm o' (by simp [ho'])) hok
+
+/-- `_grab_table_elements`: a named constraint whose name is unique among the table's constraints is filed under its name -/
+theorem grab_named_lookup (refl : Bool) (n : String) (c : Const) (hn : c.name = some n) : ∀ (cs : List Const)
+    (acc : List (String × Const) × List Const),
+    (∀ c' ∈ cs, c'.name = some n → c' = c) → (c ∈ cs ∨ alookup n acc.1 = some c) →
+    alookup n (cs.foldl (fun acc c =>
+      if refl && c.kind == .check && c.name.isNone then acc
+      else match c.name with
+        | some nm => (aset nm c acc.1, acc.2)
+        | none => (acc.1, acc.2 ++ [c])) acc).1 = some c := by
+  intro cs
+  induction cs with
+  | nil =>
+    intro acc _ h
+    rcases h with h | h
+    · simp at h
+    · simpa using h
+  | cons x r ih =>
+    intro acc huniq h
+    simp only [List.foldl_cons]
+    apply ih
+    · intro c' hc'; exact huniq c' (by simp [hc'])
+    · by_cases hx : x = c
+      · subst hx
+        right
+        simp [hn, alookup_aset_self]
+      · rcases h with h | h
+        · simp only [List.mem_cons] at h
+          rcases h with h | h
+          · exact absurd h.symm hx
+          · exact .inl h
+        · right
+          split
+          · exact h
+          · split
+            · rename_i nm hnm
+              have hne : n ≠ nm := by
+                intro e; subst e
+                exact hx (huniq x (by simp) hnm)
+              simp only
+              rw [alookup_aset_ne _ _ hne]; exact h
+            · exact h
+
+/-! ## the primary key constraint -/
+
+def isPk (c : Const) : Bool := c.kind == .pk
+
+/-- all PRIMARY KEY constraint objects the state holds -/
+def pkList (st : State) : List Const := ((st.named.map (·.2)) ++ st.unnamed).filter isPk
+
+/-- the operation concerns the primary key: it adds a PRIMARY KEY constraint, adds a constraint under the name
+of the primary key constraint, or drops the constraint with that name -/
+def mentionsPk (pkName : Option String) : BatchOp → Bool
+  | .addConstraint c => c.kind == .pk || (pkName.isSome && c.name == pkName)
+  | .dropConstraint m => pkName == some m
+  | _ => false
+
+/-- exactly one PRIMARY KEY constraint object, `c`; PRIMARY KEY entries of `named_constraints` sit under their own name -/
+structure PkInv (st : State) (c : Const) : Prop where
+  only : pkList st = [c]
+  keys : ∀ p ∈ st.named, isPk p.2 = true → p.2.name = some p.1
+
+theorem mem_aset {α : Type} {k : String} {v : α} {l : List (String × α)} {p : String × α} (h : p ∈ aset k v l) :
+    p = (k, v) ∨ p ∈ l := by
+  induction l with
+  | nil => simp [aset] at h; exact .inl h
+  | cons q r ih =>
+    obtain ⟨a, w⟩ := q
+    by_cases ha : a = k
+    · simp [aset, ha] at h
+      rcases h with h | h
+      · exact .inl h
+      · exact .inr (by simp [h])
+    · simp [aset, ha] at h
+      rcases h with h | h
+      · exact .inr (by simp [h])
+      · rcases ih h with h | h
+        · exact .inl h
+        · exact .inr (by simp [h])
+
+theorem aset_filter_snd {k : String} {v : Const} {l : List (String × Const)} (hv : isPk v = false)
+    (hl : ∀ q ∈ l, q.1 = k → isPk q.2 = false) :
+    ((aset k v l).map (·.2)).filter isPk = (l.map (·.2)).filter isPk := by
+  induction l with
+  | nil => simp [aset, hv]
+  | cons q r ih =>
+    obtain ⟨a, w⟩ := q
+    have ihr := ih (fun q hq => hl q (by simp [hq]))
+    by_cases ha : a = k
+    · have hw : isPk w = false := hl (a, w) (by simp) ha
+      simp [aset, ha, List.filter_cons, hv, hw]
+    · simp only [aset, ha, beq_iff_eq, if_false, List.map_cons, List.filter_cons]
+      simp only [List.map_cons] at ihr
+      rw [ihr]
+
+theorem adel_filter_snd {k : String} {l : List (String × Const)} (hl : ∀ q ∈ l, q.1 = k → isPk q.2 = false) :
+    ((adel k l).map (·.2)).filter isPk = (l.map (·.2)).filter isPk := by
+  induction l with
+  | nil => simp [adel]
+  | cons q r ih =>
+    obtain ⟨a, w⟩ := q
+    have ihr := ih (fun q hq => hl q (by simp [hq]))
+    simp only [adel] at ihr ⊢
+    by_cases ha : a = k
+    · have hw : isPk w = false := hl (a, w) (by simp) ha
+      simp [List.filter_cons, ha, hw, ihr]
+    · simp [List.filter_cons, ha, ihr]
+
+theorem pk_entry_key {st : State} {c : Const} (hinv : PkInv st c) {q : String × Const} (hq : q ∈ st.named)
+    (hpk : isPk q.2 = true) : q.2 = c ∧ c.name = some q.1 := by
+  have hmem : q.2 ∈ pkList st := by
+    simp only [pkList, List.mem_filter, List.mem_append, List.mem_map]
+    exact ⟨.inl ⟨q, hq, rfl⟩, hpk⟩
+  rw [hinv.only] at hmem
+  simp only [List.mem_singleton] at hmem
+  exact ⟨hmem, by rw [← hmem]; exact hinv.keys q hq hpk⟩
+
+theorem pkInv_applyOp {c : Const} {st st' : State} {o : BatchOp} (hinv : PkInv st c)
+    (hcols : ∀ k ∈ c.cols, touches k o = false) (hm : mentionsPk c.name o = false)
+    (hok : st.applyOp o = .ok st') : PkInv st' c := by
+  cases o with
+  | addColumn c' b a cd =>
+    simp only [State.applyOp, State.addColumn] at hok
+    split at hok
+    · cases hok
+    · cases hok; exact ⟨hinv.only, hinv.keys⟩
+  | dropColumn m =>
+    simp only [State.applyOp, State.dropColumn] at hok
+    split at hok
+    · cases hok
+    · split at hok
+      · cases hok
+      · cases hok
+        have hm' : m ∉ c.cols := by
+          intro hin
+          have := hcols m hin
+          simp [touches] at this
+        constructor
+        · have hpres : (isPk ∘ dropFromTablePk m) = isPk := by
+            funext x; simp only [Function.comp, isPk, dropFromTablePk]; split <;> rfl
+          have : pkList { st with named := st.named.map (fun p => (p.1, dropFromTablePk m p.2)),
+                                  unnamed := st.unnamed.map (dropFromTablePk m),
+                                  columns := adel m st.columns, transfers := adel m st.transfers,
+                                  existingOrdering := removeFirst m st.existingOrdering } =
+              (pkList st).map (dropFromTablePk m) := by
+            simp only [pkList, List.map_map]
+            have hl : (List.map ((fun x => x.snd) ∘ fun p => (p.fst, dropFromTablePk m p.snd)) st.named ++
+                List.map (dropFromTablePk m) st.unnamed) =
+                (List.map (fun x => x.snd) st.named ++ st.unnamed).map (dropFromTablePk m) := by
+              simp [List.map_append, List.map_map, Function.comp]
+            rw [hl, List.filter_map, hpres]
+          rw [this, hinv.only]
+          simp [dropFromTablePk_id hm']
+        · intro p hp hpk
+          simp only [List.mem_map] at hp
+          obtain ⟨q, hq, rfl⟩ := hp
+          have hqpk : isPk q.2 = true := by
+            simp only [isPk, dropFromTablePk] at hpk ⊢; split at hpk <;> exact hpk
+          have := hinv.keys q hq hqpk
+          simp only [dropFromTablePk]; split <;> exact this
+  | alterColumn m nn nt nl d =>
+    simp only [State.applyOp, State.alterColumn] at hok
+    split at hok
+    · split at hok
+      · cases hok
+      · cases hok; exact ⟨hinv.only, hinv.keys⟩
+    · cases hok
+  | addConstraint c' =>
+    simp only [mentionsPk, Bool.or_eq_false_iff] at hm
+    obtain ⟨hk', hname⟩ := hm
+    have hnpk : isPk c' = false := by simpa [isPk] using hk'
+    simp only [State.applyOp, State.addConstraint] at hok
+    split at hok
+    · rename_i n' hn'
+      cases hok
+      have hk'' : (c'.kind == ConstKind.pk) = false := hk'
+      have hentries : ∀ q ∈ st.named, q.1 = n' → isPk q.2 = false := by
+        intro q hq hqk
+        cases hq2 : isPk q.2 with
+        | false => rfl
+        | true =>
+          obtain ⟨_, hcn⟩ := pk_entry_key hinv hq hq2
+          rw [hqk] at hcn
+          simp [hcn, hn'] at hname
+      constructor
+      · simp only [pkList, hk'', Bool.false_eq_true, if_false, List.filter_append]
+        rw [aset_filter_snd hnpk hentries]
+        have := hinv.only
+        simp only [pkList, List.filter_append] at this
+        exact this
+      · intro p hp hpk
+        rcases mem_aset hp with h | h
+        · subst h; simp [hnpk] at hpk
+        · exact hinv.keys p h hpk
+    · cases hok
+  | dropConstraint m =>
+    simp only [mentionsPk] at hm
+    have hentries : ∀ q ∈ st.named, q.1 = m → isPk q.2 = false := by
+      intro q hq hqk
+      cases hq2 : isPk q.2 with
+      | false => rfl
+      | true =>
+        obtain ⟨_, hcn⟩ := pk_entry_key hinv hq hq2
+        rw [hqk] at hcn
+        simp [hcn] at hm
+    have hfin : PkInv { st with named := adel m st.named } c := by
+      constructor
+      · simp only [pkList, List.filter_append]
+        rw [adel_filter_snd hentries]
+        have := hinv.only
+        simp only [pkList, List.filter_append] at this
+        exact this
+      · intro p hp hpk
+        simp only [adel, List.mem_filter] at hp
+        exact hinv.keys p hp.1 hpk
+    simp only [State.applyOp, State.dropConstraint] at hok
+    split at hok
+    · cases hok
+    · split at hok
+      · cases hok; exact ⟨hfin.only, hfin.keys⟩
+      · cases hok; exact hfin
+  | createIndex i =>
+    simp only [State.applyOp, State.createIndex] at hok
+    cases hok; exact ⟨hinv.only, hinv.keys⟩
+  | dropIndex m =>
+    simp only [State.applyOp, State.dropIndex] at hok
+    split at hok
+    · cases hok; exact ⟨hinv.only, hinv.keys⟩
+    · cases hok
+
+/-- `_grab_table_elements` files exactly one PRIMARY KEY constraint object (the table's own) -/
+theorem grab_pkInv (refl : Bool) (c : Const) : ∀ (cs : List Const) (acc : List (String × Const) × List Const),
+    (∀ x ∈ cs, isPk x = false) → (∀ x ∈ cs, c.name.isSome → x.name ≠ c.name) →
+    ((acc.1.map (·.2)) ++ acc.2).filter isPk = [c] → (∀ p ∈ acc.1, isPk p.2 = true → p.2.name = some p.1) →
+    let r := cs.foldl (fun acc c =>
+      if refl && c.kind == .check && c.name.isNone then acc
+      else match c.name with
+        | some nm => (aset nm c acc.1, acc.2)
+        | none => (acc.1, acc.2 ++ [c])) acc
+    ((r.1.map (·.2)) ++ r.2).filter isPk = [c] ∧ (∀ p ∈ r.1, isPk p.2 = true → p.2.name = some p.1) := by
+  intro cs
+  induction cs with
+  | nil => intro acc _ _ h1 h2; exact ⟨h1, h2⟩
+  | cons x r ih =>
+    intro acc hnp hnm h1 h2
+    simp only [List.foldl_cons]
+    have hx : isPk x = false := hnp x (by simp)
+    apply ih _ (fun y hy => hnp y (by simp [hy])) (fun y hy => hnm y (by simp [hy]))
+    · split
+      · exact h1
+      · split
+        · rename_i nm hnm'
+          simp only [List.filter_append] at h1 ⊢
+          rw [aset_filter_snd hx]
+          · exact h1
+          · intro q hq hqk
+            cases hq2 : isPk q.2 with
+            | false => rfl
+            | true =>
+              exfalso
+              have hmem : q.2 ∈ (acc.1.map (·.2)).filter isPk ++ acc.2.filter isPk := by
+                simp only [List.mem_append, List.mem_filter, List.mem_map]
+                exact .inl ⟨⟨q, hq, rfl⟩, hq2⟩
+              rw [h1] at hmem
+              simp only [List.mem_singleton] at hmem
+              have hcn : c.name = some nm := by rw [← hmem, ← hqk]; exact h2 q hq hq2
+              exact hnm x (by simp) (by simp [hcn]) (by rw [hnm', hcn])
+        · simp only [List.filter_append] at h1 ⊢
+          simp [List.filter_cons, hx]
+          simpa using h1
+    · split
+      · exact h2
+      · split
+        · intro p hp hpk
+          rcases mem_aset hp with h | h
+          · subst h; simp [hx] at hpk
+          · exact h2 p h hpk
+        · exact h2
+
+theorem pkInv_applyOps {c : Const} (ops : List BatchOp) : ∀ (st st' : State), PkInv st c →
+    (∀ o ∈ ops, ∀ k ∈ c.cols, touches k o = false) → (∀ o ∈ ops, mentionsPk c.name o = false) →
+    st.applyOps ops = .ok st' → PkInv st' c := by
+  induction ops with
+  | nil => intro st st' h _ _ hok; simp [State.applyOps] at hok; cases hok; exact h
+  | cons o r ih =>
+    intro st st' h hc hm hok
+    simp only [State.applyOps] at hok
+    split at hok
+    · cases hok
+    · rename_i st1 h1
+      exact ih st1 st' (pkInv_applyOp h (hc o (by simp)) (hm o (by simp)) h1)
+        (fun o' ho' => hc o' (by simp [ho'])) (fun o' ho' => hm o' (by simp [ho'])) hok
+
 end Lemmas.Batch
